@@ -489,6 +489,11 @@ func (g *FuncGen) evUnary(x *ast.UnaryExpr, st *State) Val {
 		if cl, ok := x.X.(*ast.CompositeLit); ok {
 			return g.evComposite(cl, st, true)
 		}
+		// &b of a variable of a library struct type: the handle of that object
+		if id, ok := unparen(x.X).(*ast.Ident); ok && isLibStruct(g.typeOf(id)) {
+			v := g.ev(id, st)
+			return Val{v.T, g.typeOf(x), "Int"}
+		}
 		// &x of a local or field: used only as an out-parameter of library calls; give an opaque pointer
 		return g.freshVal(st, "addr", g.typeOf(x))
 	}
@@ -735,4 +740,14 @@ func (g *FuncGen) mapWF(m *types.Map, has, val, alloc string) {
 	}
 	ks := sortOf(m.Key())
 	g.emit(fmt.Sprintf("(assert (forall ((r Int) (k %s)) (! (=> (and (select %s r) (select (select %s r) k)) (or (= (select (select %s r) k) 0) (select %s (select (select %s r) k)))) :pattern ((select (select %s r) k)))))", ks, alloc, has, val, alloc, val, val))
+}
+
+// isLibStruct: a named struct type declared outside the repository (bytes.Buffer, ...), used as a value
+func isLibStruct(t types.Type) bool {
+	n, ok := types.Unalias(t).(*types.Named)
+	if !ok || n.Obj().Pkg() == nil || isRepoPkg(n.Obj().Pkg()) {
+		return false
+	}
+	_, isStruct := n.Underlying().(*types.Struct)
+	return isStruct && sortOf(t) == "Int"
 }
